@@ -150,6 +150,8 @@ pub enum Member {
     Req(Res),
     Not(Res),
     Opt(Res),
+    /// `(&a, (&b).maybe()).maybe()`: an optional group that itself has an optional member
+    OptPair(Res, Res),
 }
 
 pub struct Model {
@@ -354,7 +356,7 @@ impl Model {
                 members.iter().all(|m| match m {
                     Member::Req(r) => self.contains(*r, *i),
                     Member::Not(r) => !self.contains(*r, *i),
-                    Member::Opt(_) => true,
+                    Member::Opt(_) | Member::OptPair(..) => true,
                 })
             })
             .collect()
@@ -372,6 +374,7 @@ pub enum ItemVal {
     Opt(Option<Box<ItemVal>>),
     Unit,
     Num(i64),
+    Tup(Vec<ItemVal>),
 }
 
 /// Conversion of one join item into a comparable value; `touch` writes through
@@ -472,6 +475,15 @@ impl<'a> ToItem for &'a mut i64 {
 impl ToItem for i64 {
     fn item(&self) -> ItemVal {
         ItemVal::Num(*self)
+    }
+}
+impl<A: ToItem, B: ToItem> ToItem for (A, B) {
+    fn item(&self) -> ItemVal {
+        ItemVal::Tup(vec![self.0.item(), self.1.item()])
+    }
+    fn touch(&mut self, p: u32) {
+        self.0.touch(p);
+        self.1.touch(p);
     }
 }
 impl<T: ToItem> ToItem for Option<T> {
